@@ -203,7 +203,7 @@ BigPair(g, h) == g + h > 8
 Cases ==
        \* honest statements: commit, prove, verify; all vector patterns on the small size pairs, three on the large ones
        UNION { { << k, g, h, t, 1, 0, (IF k = "verify" THEN BigScr ELSE 100001) >> : k \in Kinds,
-                   t \in IF BigPair(g, h) THEN { T4, << 5, 5, 5 >>, << 6, 6, 4 >> } ELSE PatTriples } : g \in Sizes, h \in Sizes }
+                   t \in IF BigPair(g, h) THEN (IF g + h = 16 THEN { T4, << 5, 5, 5 >>, << 6, 6, 4 >> } ELSE { T4, << 5, 5, 5 >> }) ELSE PatTriples } : g \in Sizes, h \in Sizes }
   \cup { << k, g, h, T4, rid, 0, BigScr >> : k \in Kinds, rid \in { 2, 3, 5 }, g \in { 1, 4 }, h \in { 1, 2 } }
        \* rho = 0: with an all-zero n the argument's equation holds although the challenge base is unusable
   \cup { << "verify", g, h, << 1, 4, 4 >>, 4, 0, BigScr >> : g \in Sizes, h \in Sizes }
@@ -212,16 +212,16 @@ Cases ==
   \cup { << k, 2, 1, T4, 1, p, BigScr >> : k \in { "prove", "verify" },
            p \in IF Thorough THEN 1..140 ELSE { 1, 2, 24, 55, 56, 57, 64, 65, 66, 120, 121, 128, 129 } }
        \* prover and commitment without scratch space and with useless ones; verifier around the need
-  \cup { << k, g, h, T4, 1, 0, x >> : k \in { "commit", "prove" }, x \in { 0, 1, 101, 5001 }, g \in { 1, 2, 8 }, h \in { 1, 4 } }
-  \cup { << "verify", g, h, T4, 1, 0, (BpScratchNeed(g, h) + d) - 32 >> : d \in { 0, 31, 32, 33, 1032 }, g \in { 1, 4 }, h \in { 1, 8 } }
+  \cup { << k, g, h, T4, 1, 0, x >> : k \in { "commit", "prove" }, x \in { 0, 1, 101, 5001 }, g \in { 1, 8 }, h \in { 1, 4 } }
+  \cup { << "verify", gh[1], gh[2], T4, 1, 0, (BpScratchNeed(gh[1], gh[2]) + d) - 32 >> : d \in { 0, 31, 32, 33, 1032 }, gh \in { << 1, 1 >>, << 4, 8 >> } }
   \cup { << "verify", 8, 8, T4, 1, 0, (BpScratchNeed(8, 8) + d) - 32 >> : d \in { 31, 32 } }
   \cup { << "verify", g, h, T4, 1, 0, x >> : x \in { 0, 16, 32 }, g \in { 1, 8 }, h \in { 1, 2 } }
   \cup { << "scr", 2, 2, T4, 1, 0, x >> : x \in 0..(FlipNeed + 17) }
        \* altered proofs and statements
   \cup { << "flip", 2, 2, T4, 1, 0, bit >> : bit \in 0..(8 * BpProofLen(2, 2) - 1) }
-  \cup { << "mut", g, h, T4, 1, 0, m >> : m \in MutsAny, g \in { 1, 2 }, h \in { 1, 4 } }
+  \cup { << "mut", gh[1], gh[2], T4, 1, 0, m >> : m \in MutsAny, gh \in { << 1, 1 >>, << 2, 4 >> } }
   \cup { << "mut", 1, 1, << 2, 2, 4 >>, 1, 0, m >> : m \in { 37, 38 } }
-  \cup { << "mut", gh[1], gh[2], T4, 1, 0, m >> : m \in MutsRound, gh \in { << 2, 2 >>, << 4, 1 >>, << 1, 4 >>, << 4, 8 >> } }
+  \cup { << "mut", gh[1], gh[2], T4, 1, 0, m >> : m \in MutsRound, gh \in { << 2, 2 >>, << 4, 1 >>, << 1, 4 >>, << 2, 4 >> } }
   \cup { << "mut", gh[1], gh[2], t, 1, 0, m >> : m \in { 12, 13, 14, 16 }, gh \in { << 2, 2 >>, << 1, 2 >>, << 4, 2 >> },
                                                   t \in { << 6, 6, 4 >>, << 1, 1, 4 >> } }
   \cup { << "mut", 4, h, T4, 1, 0, 31 >> : h \in { 1, 2 } } \cup { << "mut", 8, 2, T4, 1, 0, 31 >> }
@@ -243,6 +243,9 @@ Cases ==
              \cup { << "mut", 16, 4, T4, 1, 0, m >> : m \in MutsAny \cup MutsRound \cup { 31, 32 } }
              \cup { << "mut", 4, 2, T4, 1, 0, m >> : m \in MutsAny \cup MutsRound \cup { 31, 32 } }
              \cup { << "gparse", k, 0, T4, 1, 0, v >> : k \in { 16, 64, 256 }, v \in 1..20 }
+             \cup { << k, g, h, T4, 1, 0, x >> : k \in { "commit", "prove" }, x \in { 0, 1, 101, 5001 }, g \in Sizes, h \in Sizes }
+             \cup { << "mut", g, h, T4, 1, 0, m >> : m \in MutsAny, g \in { 1, 2 }, h \in { 1, 4 } }
+             \cup { << "mut", 4, 8, T4, 1, 0, m >> : m \in MutsRound }
         ELSE { })
 
 \* X: the order-13 test group (cfg C19_tiny13: Cases <- TinyCases).  Generators are inputs, so any subgroup points
@@ -250,6 +253,7 @@ Cases ==
 \*  "tw"  every witness (n, l) in Z_13^3 for both shapes, two challenge bases: commit, prove, verify;
 \*  "tp"  every proof string made of two subgroup points (or infinity) and two scalar encodings 0..14 / 0..12
 \*        for one fixed statement -- the only place where accepted proofs exist that no prover produced.
+\* (complete in the thorough tier; the quick tier keeps all points and thins out the scalars)
 TinyGens == << PMulG(Two), PMulG(Three), PMulG(FromNat(5)) >>
 TinyStmt(g, n, l, rho) ==
   LET h == 3 - g   c == [j \in 1..h |-> FromNat(5 + j)]
@@ -263,9 +267,11 @@ TinyPt(k) == IF k = 0 THEN Inf ELSE PMulG(FromNat(k))
 NN == ToNat(N)
 TinyCases ==
        { << "tw", k, g, a, b, c, rho >> : k \in IF Thorough THEN Kinds ELSE { "prove", "verify" }, g \in IF Thorough THEN { 1, 2 } ELSE { 2 },
-                                          a \in 0..(NN-1), b \in 0..(NN-1), c \in 0..(NN-1), rho \in IF Thorough THEN { 2, 6 } ELSE { 2 } }
+                                          a \in 0..(NN-1), b \in 0..(NN-1), c \in IF Thorough THEN 0..(NN-1) ELSE { 0, 1, 5, NN-1 },
+                                          rho \in IF Thorough THEN { 2, 6 } ELSE { 2 } }
   \cup { << "tw", k, 1, a, b, c, 6 >> : k \in Kinds, a \in { 0, 1, NN-1 }, b \in 0..(NN-1), c \in { 0, 5 } }
-  \cup { << "tp", x, r, n, l >> : x \in 0..(NN-1), r \in 0..(NN-1), n \in 0..(NN+1), l \in IF Thorough THEN 0..(NN-1) ELSE { 0, 4, NN-1 } }
+  \cup { << "tp", x, r, n, l >> : x \in 0..(NN-1), r \in 0..(NN-1), n \in IF Thorough THEN 0..(NN+1) ELSE { 0, 1, 5, NN-1, NN, NN+1 },
+                                  l \in IF Thorough THEN 0..(NN-1) ELSE { 0, 4, NN-1 } }
 ExpandTiny(d) ==
   IF d[1] = "tw"
   THEN LET s == TinyW(d[3], d[4], d[5], d[6], d[7]) IN
@@ -316,7 +322,7 @@ Spec == Init /\ [][Next]_vars
 
 InvProve == (phase = "done" /\ rec.e = "BpppProve") => ProveComplete(rec.in, rec.out)
 InvVerify == (phase = "done" /\ rec.e = "BpppVerify") =>
-               /\ (cur[1] = "flip" => cur[7] % 4 = 0) => FoldAgrees(rec.in, rec.out)
+               /\ (cur[1] = "flip" => cur[7] % 16 = 0) => FoldAgrees(rec.in, rec.out)
                /\ (cur[1] = "verify" /\ cur[5] # 4 /\ cur[7] >= BpScratchNeed(cur[2], cur[3])) => rec.out.ret = 1   \* honest proofs verify
                /\ (cur[1] \in { "mut", "flip" } \/ cur[5] = 4) => rec.out.ret = 0                                   \* altered ones and rho = 0 do not
                /\ (cur[1] = "scr") => (rec.out.ret = 1 <=> cur[7] >= FlipNeed)
